@@ -373,7 +373,9 @@ func (gs *GenState) genRejected(r *rand.Rand, m *Model) Op {
 			if len(live) == 0 {
 				continue
 			}
-			return Op{K: pick(r, []string{"del", "setmeta"}), Idx: pick(r, live), ID: "ghost", Meta: map[string]any{"color": "red"}, Expect: "reject"}
+			// "ghost" was never seen; the entities are graph-only nodes: they have edges but no vector, so a
+			// rejected delete of one of them must leave those edges alone, now and after restart
+			return Op{K: pick(r, []string{"del", "setmeta"}), Idx: pick(r, live), ID: pick(r, append([]string{"ghost"}, gs.Ents...)), Meta: map[string]any{"color": "red"}, Expect: "reject"}
 		case 5: // dimension mismatch
 			if len(live) == 0 {
 				continue
@@ -426,7 +428,7 @@ func (gs *GenState) genRejected(r *rand.Rand, m *Model) Op {
 		case 10: // unsupported metric/precision pair at creation
 			var free []string
 			for _, n := range gs.Names {
-				if gs.Idx[n] == nil && !(gs.P.Avoid && gs.Dropped[n]) {
+				if gs.Idx[n] == nil {
 					free = append(free, n)
 				}
 			}
